@@ -172,6 +172,7 @@ def r2_roundtrip(a, tier):
     # where the language wants a term, anything inside brackets)
     def G(x):
         return b.box('Group', x)
+    WIDE = ['alternative_number_one', 'alternative_number_two', 'alternative_number_three']
     atoms = [
         ('token', lambda: T('a'), ('tok', 'a')), ('pattern', lambda: Stub(Q['Pattern'], pattern='x+'), ('pat', 'x+')),
         ('call', lambda: C('r'), ('call', 'r')), ('constant', lambda: Stub(Q['Constant'], literal='k'), ('const', 'k')),
@@ -182,6 +183,10 @@ def r2_roundtrip(a, tier):
         ('group of a choice', lambda: G(Stub(Q['Choice'], options=[Stub(Q['Option'], exp=T('a')), Stub(Q['Option'], exp=T('b'))])),
          ('choice', (('tok', 'a'), ('tok', 'b')))),
         ('group of an optional', lambda: G(b.box('Optional', T('a'))), ('opt', ('tok', 'a'))),
+        # operands that print on SEVERAL lines: the multi-line branch of every wrapper
+        ('group of a wide choice', lambda: G(Stub(Q['Choice'], options=[Stub(Q['Option'], exp=T(w)) for w in WIDE])),
+         ('choice', tuple(('tok', w) for w in WIDE))),
+        ('group of a wide sequence', lambda: G(seq(*[T(w) for w in WIDE + WIDE])), ('seq', tuple(('tok', w) for w in WIDE + WIDE))),
     ]
     term_wrappers = [
         ('name=', lambda x: b.box('Named', x, name='n'), lambda i: ('named', 'n', i)),
